@@ -3,7 +3,8 @@ import vlib
 class P(vlib.Prop):
     id = "C08"
     # a changed function in these files makes the quick tier run the stages at thorough size (about 4.5 min)
-    watch = ("pkg/apk/apk/shameful_global_caches.go", "pkg/apk/apk/repo.go", "pkg/apk/apk/index.go")
+    watch = ("pkg/apk/apk/shameful_global_caches.go", "pkg/apk/apk/repo.go", "pkg/apk/apk/index.go", "pkg/apk/apk/implementation.go", "pkg/build/multi.go")
+    coq_targets = ["Properties/C08.vo", "Corr/C08.vo", "Corr/C08Multi.vo"]
     rule = ("history stage: hand-picked histories first (every known-finding and fixed-finding replay - C08-F1/F3 install_if order and chain membership, fixed by c03e0c0; C08-F2 cache key without the grouping, fixed by 3541d7b -; install_if chains, name=version keys, several packages per key; the scenarios the per-call clone, the copy of the disqualification map "
             "and the explicit tie-breaks exist for; positive controls), then generated histories of 3-6 ResolveWorld-style calls "
             "(NewPkgResolver + GetPackagesWithDependencies through the public API) over 2-4 shared index objects: the same index list under different worlds, "
@@ -19,6 +20,10 @@ class P(vlib.Prop):
             "remote (httptest server, ETag from the bytes, first fetch delayed so that goroutines complete out of order); repositories share a name-version so that the ORDER of the returned list decides the install list; "
             "corpus first: one file under two entries with a rewrite between (pin / keyring), C08-F5 replays (unchanged and earlier time), delayed fetches in both orders, holes (missing local repository), remote rewrite, duplicates. "
             "Per request the Name(), directory and packages of every returned index and the (name, version, directory) install list go to Coq, where the index-cache model (Model/CachesIndex.v) runs over the events; oracle = the same request on never-read copies. "
+            "Remote lines are served with an ETag, with Last-Modified only or with neither, and re-published inside one second (file time pinned) and across seconds: the index used must be the one the server holds at request time. "
+            "multiarch stage: families of 2-3 architectures whose local repositories drifted apart (a version one has and another lacks), wired by the real build.NewMultiArch; every context's APK.ResolveWorld is repeated R times "
+            "(100 quick, 300 thorough: the sibling loop ranges over a Go map) and BuildPackageLists (contexts concurrently) several times; the DISTINCT outcomes per architecture must be ONE, equal to Model/MultiArch.resolve_arch (the filtered list), "
+            "and C14's verified validator foreign_check must find no member a sibling lacks (Corr/C08Multi.v). "
             "history stage additions: the same index SET in two orders (same name-version in both: the first listed wins) in corpus and generator, k resolutions through ONE cache key each compared with a fresh process, "
             "install_if triggers spread over two requests, and after every history the resolver trie is probed (every list used, its permutations and prefixes) against the model's rcache. "
             "A history is non-trivial when at least one call succeeds; distinct = distinct case terms.")
@@ -26,6 +31,7 @@ class P(vlib.Prop):
         dict(name="history", cmd="c08", args=lambda t, s: ["-stage", "history"]),
         dict(name="indexcache", cmd="c08", args=lambda t, s: ["-stage", "indexcache"]),
         dict(name="indexhist", cmd="c08", args=lambda t, s: ["-stage", "indexhist"]),
+        dict(name="multiarch", cmd="c08", args=lambda t, s: ["-stage", "multiarch"]),
         dict(name="conc", cmd="c08", race=True, args=lambda t, s: ["-stage", "conc"]),
     )
     assumptions = (
@@ -46,13 +52,14 @@ class P(vlib.Prop):
                   "code after histories, on fresh caches and in fresh processes; the model of the disqualification trie is compared with the entries the real trie holds before and after every call. "
                   "Session 4: c08_clone_fresh - the clone function READ OFF PkgResolver.Clone's struct literal (clone_by_shape of the generated shape) and the trie keyed by the list as given: after every history a resolution through the cached, cloned resolver "
                   "equals one through a fresh resolver (refuted for `selected: p.selected` and for a sorted trie key); c08_index_cache_fresh - the local index cache is transparent for every history of rewrites and requests under any entries provided rewrites move the "
-                  "modification time forward (refuted otherwise: finding C08-F5; refuted for per-path times); c08_index_list_schedule_independent - GetRepositoryIndexes returns repository order under every goroutine schedule; "
+                  "modification time forward (refuted otherwise: finding C08-F5; refuted for per-path times); c08_index_list_schedule_independent - GetRepositoryIndexes returns repository order under every goroutine schedule; c08_remote_index_cache_fresh - the remote branch (cached per ETag, not cached without one) returns what the server holds at request time "
+                  "provided an ETag names one content (refuted for a version header that does not: the Last-Modified second); "
                   "c08_install_if_request_complete / _versioned_complete - over a whole resolution every install_if package whose entries (literal names, or name=version under the side condition the code imposes) are met inside ONE request's "
                   "dependency list is installed (refuted across requests, for the requested package itself, and for a shadowed versioned key).")
     level_note = ("trusted: Coq kernel, Go harness/printer, the reset hook (cross-checked against fresh processes); modelled not verified: the Go text of the cache layer and of the resolver core; "
                   "data races and interleavings are explored with the race detector, not proved; correspondence is differential testing, not proof")
     design_ref = "DESIGN.md 7 C08"
-    modelled_not_verified = ("indexCache.get's local branch and GetRepositoryIndexes' collection are modelled by hand (Model/CachesIndex.v; shapes read by goextract); the remote branch (ETag, sync.Once) is only compared with 'returns the present contents'; "
+    modelled_not_verified = ("indexCache.get's local and remote branches and GetRepositoryIndexes' collection are modelled by hand (Model/CachesIndex.v; shapes of the local branch and of the collection read by goextract; the remote branch sequentially: sync.Once / sync.Map concurrency is not modelled); "
                              "resolverCache.Get / disqualifyCache.Get / the memo tables are modelled by hand (Model/Caches.v; PkgResolver.Clone is generated field by field); the resolver core is abstract "
                              "(frame hypothesis) unless Model/Resolver.v is linked; sync.Mutex / sync.Map and the Go memory model are exercised by the conc stage under the race detector only")
 
